@@ -857,6 +857,18 @@ func (rn *runner) cliCase(c ccase, tag string) {
 			Detail: "model txtar_c and the bytes printed by txtar-c differ"})
 		return
 	}
+	// model: the same through the rose-tree walk, with the empty directories
+	tparts := append([]string{"savedirtree"}, parts[1:]...)
+	tparts = append(tparts, fmt.Sprint(len(c.Dirs)))
+	for _, d := range c.Dirs {
+		tparts = append(tparts, common.Hex([]byte(d)))
+	}
+	if mt := rn.m.Ask1(strings.Join(tparts, " ")); mt != common.Hex(r.archive) {
+		res.Count("mismatch:savedirtree")
+		res.Violate(common.Violation{Kind: "correspondence", Oracle: "savedirtree", Input: in,
+			Model: mt, Impl: common.Hex(r.archive), Key: "savedirtree:" + mustJSON(c),
+			Detail: "model savedir_tree (filepath.Walk on the tree) and the bytes printed by txtar-c differ"})
+	}
 	// model: extraction of those bytes into an empty directory
 	var req string
 	if c.RelMode {
